@@ -343,6 +343,7 @@ def judge (op : List String) (go : String) : Verdict :=
       | some viol => viol
       | none => if go == model then .ok tags else .modelDiff model tags
   | ["stored", "dec", hex] =>
+    if go == "skipped-huge-some-levels" then .skip "some-levels-beyond-harness-budget" else
     match parseHex hex with
     | none => .skip "bad-op"
     | some bs =>
